@@ -79,6 +79,35 @@ def _task_forms(task):
                                             observed=got.hex() if isinstance(got, bytes) else got, note="a raw packet object built from this kind of object does not read as bytes(object) does")
             t.nontrivial += 1
             t.outcomes["forms"] += 1
+        # positions and widths that are integers of another kind (numpy integers, as indexes computed from arrays are): whole-byte reads, and
+        # integer reads of fields within four bytes
+        import numpy as np
+        buf = base
+        bits = _bits(buf)
+        for ityp in (np.int64, np.intp):   # 64-bit indexes (narrower numpy integers overflow in their own arithmetic: not judged)
+            for p in (0, 8, 16, 3, 13):
+                for n in (8, 16, 24, 5, 11):
+                    for kind in ("int", "bytes"):
+                        if kind == "bytes" and (p % 8 or n % 8):
+                            continue
+                        for pa, na in ((ityp(p), n), (p, ityp(n)), (ityp(p), ityp(n))):
+                            t.evals += 1
+                            want_int = int(bits[p:p + n], 2)
+                            try:
+                                r = RPD(buf)
+                                r.pos = pa
+                                got = r.read_as_int(na) if kind == "int" else r.read_as_bytes(na)
+                                ok = int(got) == want_int if kind == "int" else bytes(got) == want_int.to_bytes((n + 7) // 8, "big")
+                                ok = ok and int(r.pos) == p + n
+                                # ... and a plain read right after it on the same object
+                                nxt = r.read_as_int(3)
+                                ok = ok and int(nxt) == int(bits[p + n:p + n + 3], 2)
+                            except Exception as e:  # noqa: BLE001
+                                got, ok = f"raised:{type(e).__name__}", False
+                            if not ok:
+                                t.violation({"kind": "read-mismatch", "read": kind, "argument_type": ityp.__name__},
+                                            {"forms": True, "built_from": "index-type:" + ityp.__name__, "via_packet": False, "pos": p, "nbits": n, "read": kind, "buf": buf.hex()},
+                                            observed=str(got)[:60], note="a position / width given as a numpy integer")
     return t
 
 
@@ -473,7 +502,7 @@ def run(ctx):
                   "walking-1/walking-0 over every bit for lengths 3..%d; (c) aligned and unaligned reads on 64, 4096, 65542-byte buffers; "
                   f"(d) histories on ONE object: every sequence of {depth} reads over an alphabet of (position, width, kind) with the cursor set freely before each read, "
                   f"buffers of {'3, 8, 16' if ctx.quick else '3, 6, 8, 16, 32 bytes, and every sequence of 4 reads on 3'} bytes, cached header properties touched at varying points; "
-                  "(j) buffers of 70001 and 140000 bytes (longer than any single packet: combined segment groups) read whole and nearly whole at aligned and unaligned positions; (e) in a fresh interpreter: for every shape (pos mod 8 in 0..7, width 1..72, 80, 96, 127, 128) a failing over-read first, then in-range reads of that shape; (i) raw packet objects built from bytes, bytearray, memoryview, arrays of 1/2/4/8-byte items, a cast memoryview, a list of ints and another raw packet object, directly and through CCSDSPacket(raw_data=...), every position x 9 widths; (g) every (p, n) of a 3-byte buffer read on a worker thread; (h) kernel E-thread: every ordered pair of 11 reads on two raw packet objects by two threads at once, every interleaving of their accesses to the objects with at most 2 preemptions; (f) in a fresh interpreter: every (position 0..39, width 0..40) first used with an equal float / Fraction / Decimal / bool position and/or width (not judged), then with the integers" % (4 if ctx.quick else 6)),
+                  "(j) buffers of 70001 and 140000 bytes (longer than any single packet: combined segment groups) read whole and nearly whole at aligned and unaligned positions; (e) in a fresh interpreter: for every shape (pos mod 8 in 0..7, width 1..72, 80, 96, 127, 128) a failing over-read first, then in-range reads of that shape; (k) positions and widths given as numpy integers (whole-byte reads, integer reads within four bytes, a plain read right after); (i) raw packet objects built from bytes, bytearray, memoryview, arrays of 1/2/4/8-byte items, a cast memoryview, a list of ints and another raw packet object, directly and through CCSDSPacket(raw_data=...), every position x 9 widths; (g) every (p, n) of a 3-byte buffer read on a worker thread; (h) kernel E-thread: every ordered pair of 11 reads on two raw packet objects by two threads at once, every interleaving of their accesses to the objects with at most 2 preemptions; (f) in a fresh interpreter: every (position 0..39, width 0..40) first used with an equal float / Fraction / Decimal / bool position and/or width (not judged), then with the integers" % (4 if ctx.quick else 6)),
         "rule": ("one evaluation = one read (int or bytes) of one (buffer, p, n); distinct non-trivial = distinct small buffers fully "
                  "swept plus distinct (length, p, n) windows swept over the content family"),
     }
